@@ -264,7 +264,7 @@ func (w *lWorld) render(u int, s lSpec) (string, lFileJ) {
 		}
 	}
 	text := b.String()
-	j, perrs := parser.Parse(text)
+	j, perrs := hxParse(text)
 	if len(j.Includes) != len(exps) {
 		panic(fmt.Sprintf("harness: %d includes parsed, %d written:\n%s", len(j.Includes), len(exps), text))
 	}
